@@ -54,3 +54,7 @@ def run(tier, seed, verdict):
                    "(a documented default), hence not treated as refusals",
                    "bounds of the TLC configuration (see model.config); concretisation pools are sampled by seed"]
     return "model_checking", coverage, assumptions
+
+
+def replay(path):
+    return mr.replay_file(path)
